@@ -666,7 +666,11 @@ def check_outcome(I: Interp, o: Outcome, c, pre: State, invs, fn, selfcls):
     matched = False
     earlier = []
     conds = []
-    for ent in c.raises:
+    # an exception a callee MAY let escape (its may_raise) that the caller's own may_raise covers is not measured against
+    # the caller's ordered raises-clauses: those say when the caller itself must raise that class
+    passthrough = getattr(exc, "from_may_raise", False) and isinstance(exc.cls, str) and \
+        any(I.repo.exc_is_subclass(exc.cls, m) for m in c.may_raise)
+    for ent in ([] if passthrough else c.raises):
         w = I.contract_truth(_in_pre(ent["when"]), st)
         same = _exc_is(I, exc, ent, st)
         cond = zand(w, *[znot(e) for e in earlier])
